@@ -30,6 +30,7 @@ ASSUMPTIONS = [
     'AddRoundKey targets are attacked with CPA + HammingWeight + nanmax only (maxabs ties the complemented key; partition/bit statistics are blind there)',
     'DES S-box 4 (word 3) is not attacked with Value-partition statistics: S4(x ^ 0x2f) is a fixed relabelling of S4(x), so two guesses tie exactly (blind combination, excluded by construction)',
     'DES DPA on bit 2 of S-box 2 is excluded: its best wrong guess reaches 89% of the true peak without any noise (structural ghost peak), far inside the 5% margin once noise is added',
+    'a constant (never moving) sample may be part of the traces: the statistic is undefined there and the discriminant has to ignore it',
     'static template attack: matching traces all carry one class, the best-scoring template must be that class (there is no key guess in this attack)',
 ]
 
@@ -74,6 +75,8 @@ def _leak(case, values, seed_extra):
         v = values[:, j]
         lk = _hw(v) if m == 'hw' else v.astype('float64') if m == 'value' else ((v >> int(m[-1])) & 1)
         tr[:, 2 * j + 1] += lk
+    if case.get('const_sample'):
+        tr[:, -1] = float(case.get('offset', 0.0))        # a sample that never moves (padding / saturation): statistics are undefined there
     return tr.astype(case['tdtype'])
 
 
@@ -108,7 +111,7 @@ def _check(ctx, case):
     mod = getattr(aes_sf if cipher == 'aes' else des_sf, ns)
     sf = getattr(mod, cls)(words=words if attack not in ('tdpa',) else words[0])
     labels = ['cipher:%s' % cipher, 'attack:' + attack, 'target:%s.%s' % (cipher, name), 'model:' + case['model'], 'keysize:%d' % len(key), 'batch:%s' % (case['batch_size'] or 'default'), 'prec:' + case['precision'],
-              'offset:%g' % case.get('offset', 0.0), 'convergence_step:%s' % (case.get('convergence_step') or 'none')]
+              'offset:%g' % case.get('offset', 0.0), 'convergence_step:%s' % (case.get('convergence_step') or 'none')] + (['constant_sample'] if case.get('const_sample') else [])
     nclass = {'hw': (9 if cipher == 'aes' else (7 if 'AddRoundKey' in name else 5)), 'value': (256 if cipher == 'aes' else 16)}.get(case['model'], 2)
     kw = dict(selection_function=sf, model=_scared_model(case), precision=case['precision'])
     if case.get('convergence_step') and attack != 'tstatic':
@@ -221,6 +224,8 @@ def cases(draw, cipher, attack):
         model = draw(st.sampled_from(['mono0', 'mono3'])) if cipher == 'aes' else draw(st.sampled_from(['value', 'mono1']))
     elif attack in ('anova', 'nicv', 'snr') and cipher == 'des':
         model = draw(st.sampled_from(['hw', 'value']))
+    elif attack == 'cpa' and not is_ark and draw(st.integers(0, 3)) == 0:
+        model = 'value'                    # identity leakage of the whole word (values up to 255 for AES)
     else:
         model = 'hw'
     if attack == 'tstatic':
@@ -238,7 +243,8 @@ def cases(draw, cipher, attack):
     case = {'kind': 'attack', 'cipher': cipher, 'attack': attack, 'target': target, 'key': key, 'plaintexts': pts, 'words': words, 'model': model, 'discriminant': disc,
             'precision': draw(st.sampled_from(['float32', 'float64'])), 'tdtype': draw(st.sampled_from(['float32', 'float64'])),
             'batch_size': draw(st.sampled_from([0, 0, 100, 37, 300])), 'noise_seed': draw(st.integers(0, 2 ** 32)),
-            'offset': draw(st.sampled_from([0.0, 0.0, 3.0, 20.0])), 'convergence_step': draw(st.sampled_from([0, 0, 50, 100, 120]))}
+            'offset': draw(st.sampled_from([0.0, 0.0, 3.0, 20.0])), 'convergence_step': draw(st.sampled_from([0, 0, 50, 100, 120])),
+            'const_sample': draw(st.booleans()) and attack in ('cpa', 'anova', 'nicv', 'snr', 'dpa')}
     if attack == 'tdpa':
         case['profiling_plaintexts'] = g.integers(0, 256, size=(600, blk)).astype('uint8')
     return case
